@@ -690,11 +690,16 @@ def rule_integer_argument_consulted(ctx, rep, rid: str, where: Callable[[Func], 
         vararg = f.node.args.vararg.arg if f.node.args.vararg else None
         if vararg is None:
             continue
+        from .textparse import _raw_integer_helpers
+
+        raw = _raw_integer_helpers(f)
         defs = {}
         for a in f.own_nodes():
             if isinstance(a, ast.Assign) and len(a.targets) == 1 and isinstance(a.targets[0], ast.Name) and a.targets[0].id not in defs:
                 if any(isinstance(x, ast.Call) and isinstance(x.func, ast.Name) and x.func.id == "to_integer" for x in ast.walk(a.value)) and _subscripts(a.value, vararg):
                     defs[a.targets[0].id] = a
+                elif any(isinstance(x, ast.Call) and isinstance(x.func, ast.Name) and x.func.id in raw and any(isinstance(y, ast.Name) and y.id == vararg for y in x.args) for x in ast.walk(a.value)):
+                    defs[a.targets[0].id] = a  # through a local helper that converts args[i]
         if not defs:
             continue
         cfg = ctx.facts.cfg(f)
